@@ -46,6 +46,8 @@ def configs(tier):
     # pseudo-types
     out.append(dict(arch="ResNet", sin=[[0, 1], [1, 1]], sout=[[1, 1]], num_blocks=1, num_conv=1, group_norm=False, preact=True))
     out.append(dict(arch="ResNet", sin=[[0, 1], [1, 0]], sout=[[0, 1]], num_blocks=1, num_conv=1, group_norm=True, preact=True))     # -> KF-C08
+    # signatures whose types all have tensor order 0 but include a pseudo-scalar (e.g. 2-d vorticity -> vorticity)
+    out.append(dict(arch="UNet", sin=[[0, 1], [0, 0]], sout=[[0, 1]], num_downsamples=1, num_conv=1, group_norm=False))
     if not q:
         out.append(dict(arch="UNet", sin=A, sout=B, num_downsamples=2, num_conv=2, group_norm=False, use_bias="mean"))
         out.append(dict(arch="ResNet", sin=A, sout=B, num_blocks=2, num_conv=2, group_norm=True, preact=True, use_bias=False))
